@@ -1,10 +1,13 @@
 (* C11 — executable model of pkg/sbom/generator/spdx/spdx.go: stringToIdentifier,
-   Generate (imagePackage / layerPackage / addSourcePackage / apkPackage,
+   Generate (imagePackage / layerPackage / addSourcePackage / apkPackage, the
+   numbering of an id that is taken by another package (fix 7c2586e; whether and
+   how the source does it is read by goextract: Generated.C11Prov.apk_id_policy),
    ProcessInternalApkSBOM, copySBOMElements, replacePackage, the final
    de-duplication) and GenerateIndex.  Documents are projected to
    (packages, relationships, describes); a package to (id, name, version,
    checksums).  No proofs here. *)
-From Apko Require Import Base.Prelude Base.Regex Generated.Regexes.
+From Coq Require Import DecimalString DecimalN.
+From Apko Require Import Base.Prelude Base.Regex Base.C11Lib Generated.Regexes Generated.C11Prov.
 Open Scope string_scope. Open Scope list_scope.
 Notation "a +++ b" := (String.append a b) (right associativity, at level 60).
 
@@ -239,7 +242,53 @@ Fixpoint dedup_pkgs (seen : list string) (ps : list pkg) : list pkg :=
   | p :: t => if mem (p_id p) seen then dedup_pkgs seen t else p :: dedup_pkgs (p_id p :: seen) t
   end.
 
+(* ---- the id of an apk element that is already taken (fix 7c2586e) ----------------------
+   for base, n := p.ID, <first>; idTakenByAnother(doc, &p); n++ { p.ID = fmt.Sprintf("%s-%d", base, n) } *)
+(* fmt.Sprintf("%d", n) for n >= 0 *)
+Definition dec (n : N) : string := NilEmpty.string_of_uint (N.to_uint n).
+Definition numbered (base : string) (n : N) : string := base +++ "-" +++ dec n.
+
+(* idTakenByAnother: a package with this id and another name or version *)
+Definition taken (ps : list pkg) (name version c : string) : bool :=
+  existsb (fun q => String.eqb (p_id q) c && negb (String.eqb (p_name q) name && String.eqb (p_version q) version)) ps.
+
+(* the loop after its first test: try base-n, base-(n+1), ... *)
+Fixpoint pick_from (fuel : nat) (ps : list pkg) (name version base : string) (n : N) : res string :=
+  match fuel with
+  | O => OutOfFuel
+  | S f => let c := numbered base n in
+           if taken ps name version c then pick_from f ps name version base (n + 1) else Ok c
+  end.
+(* among |ps|+1 numbered candidates one is free (pick_id_ok in Proofs/SbomRepairProofs.v) *)
+Definition pick_id_from (first : N) (ps : list pkg) (name version base : string) : res string :=
+  if taken ps name version base then pick_from (S (List.length ps)) ps name version base first else Ok base.
+Definition pick_id := pick_id_from 2.
+
+Definition mint_id (pol : id_policy) (ps : list pkg) (name version base : string) : res string :=
+  match pol with
+  | IdNumbered first => pick_id_from first ps name version base
+  | IdAsIs => Ok base
+  | IdOther _ => Ok base
+  end.
+
+Definition with_id (p : pkg) (i : string) : pkg :=
+  {| p_id := i; p_name := p_name p; p_version := p_version p; p_sums := p_sums p |}.
+
 Fixpoint process_apks (perm : list string -> list string) (fs : list (string * fsent))
+    (nonce : string) (apks : list apk) (d : doc) : res doc :=
+  match apks with
+  | [] => Ok d
+  | a :: t =>
+      let p0 := apk_package nonce a in
+      do i <- mint_id apk_id_policy (d_pkgs d) (a_name a) (a_version a) (p_id p0);
+      let d1 := {| d_pkgs := d_pkgs d ++ [with_id p0 i]; d_rels := d_rels d; d_desc := d_desc d |} in
+      do d2 <- process_internal perm fs d1 (a_name a) (a_version a);
+      process_apks perm fs nonce t d2
+  end.
+
+(* the apk loop BEFORE fix 7c2586e (ids as minted; kept as a proof device, for the
+   conservativity statement and for the regression replay of C11-F1) *)
+Fixpoint process_apks_u (perm : list string -> list string) (fs : list (string * fsent))
     (nonce : string) (apks : list apk) (d : doc) : res doc :=
   match apks with
   | [] => Ok d
@@ -247,7 +296,7 @@ Fixpoint process_apks (perm : list string -> list string) (fs : list (string * f
       let p := apk_package nonce a in
       let d1 := {| d_pkgs := d_pkgs d ++ [p]; d_rels := d_rels d; d_desc := d_desc d |} in
       do d2 <- process_internal perm fs d1 (a_name a) (a_version a);
-      process_apks perm fs nonce t d2
+      process_apks_u perm fs nonce t d2
   end.
 
 (* the document before the apk loop *)
@@ -271,6 +320,15 @@ Definition generate (perm : list string -> list string) (g : gen_in) : res doc :
   | [] => Panic            (* opts.ImageInfo.Layers[0] *)
   | _ =>
       do d <- process_apks perm (g_fs g) (nonce_of g) (g_apks g) (base_doc g);
+      Ok {| d_pkgs := dedup_pkgs [] (d_pkgs d); d_rels := d_rels d; d_desc := d_desc d |}
+  end.
+
+(* Generate before fix 7c2586e *)
+Definition generate_u (perm : list string -> list string) (g : gen_in) : res doc :=
+  match g_layers g with
+  | [] => Panic
+  | _ =>
+      do d <- process_apks_u perm (g_fs g) (nonce_of g) (g_apks g) (base_doc g);
       Ok {| d_pkgs := dedup_pkgs [] (d_pkgs d); d_rels := d_rels d; d_desc := d_desc d |}
   end.
 
